@@ -34,7 +34,7 @@ c = contract('ikesacontroller.IkeSaController.dispatch_message',
              # proof steps where the routed IKE_SA becomes known: it satisfies the per-entry invariant (a table entry by
              # the table invariant, a new responder IKE_SA by its constructor's contract)
              after={'ike_sa': ['reveal(inv_table(self)) and reveal(entry_ok(ike_sa)) and entry_ok(ike_sa)']},
-             modifies=['self.ike_sas', 'ghost:trace', 'ghost:handled', 'ghost:now'],
+             modifies=['self.ike_sas', 'ghost:trace', 'ghost:handled', 'ghost:now', 'ghost:installs', 'ghost:dh_ops'],
              # C17: nothing but a socket error of the kernel interface (contained by main_loop) leaves the dispatcher
              raises={'OSError': 'True'},
              ensures={
@@ -61,13 +61,13 @@ c = contract('ikesacontroller.IkeSaController.dispatch_message',
                                    'or (delivered != old(delivered) and '
                                    '(at(self.ike_sas, k) == routed or at(self.ike_sas, k) == routed.new_ike_sa))))',
                  'C16:table-distinct': 'table_distinct(self.ike_sas)',
-                 'C16:deleted-removed': 'implies(delivered != old(delivered) and routed.state == 21, '
+                 'C16,C10:deleted-removed': 'implies(delivered != old(delivered) and routed.state == 21, '
                                         'len(routed.child_sas) == 0 and forall(lambda k: implies(0 <= k '
                                         'and k < len(self.ike_sas), not (at(self.ike_sas, k) == routed))))',
                  'C16:successor-listed': 'implies(delivered != old(delivered) and (routed.state == 20 or routed.state == 16), '
                                          'exists(lambda k: 0 <= k and k < len(self.ike_sas) '
                                          'and at(self.ike_sas, k) == routed.new_ike_sa))',
-                 'C16:live-stays': 'implies(delivered != old(delivered) and routed.state != 21 '
+                 'C16,C17:live-stays': 'implies(delivered != old(delivered) and routed.state != 21 '
                                    'and not (routed.state == 0 and not routed.is_initiator), '
                                    'exists(lambda k: 0 <= k and k < len(self.ike_sas) and at(self.ike_sas, k) == routed))',
                  # C17 isolation: no other IKE_SA of the table is touched (only the routed one and the successor it had)
